@@ -1,5 +1,5 @@
 (* C01 — a change rewrites exactly the code that is an instance of its '-' pattern. *)
-From GP Require Import Tree Meta Match Replace FileEngine ListMatch MatchFacts FileFacts MatchComplete.
+From GP Require Import Tree Meta Match Replace FileEngine ListMatch MatchFacts FileFacts MatchComplete MatchExact.
 From Coq Require Import Lia.
 
 (* Only instances: whatever the node matcher accepts is an instance of the pattern (Inst,
@@ -74,6 +74,18 @@ Theorem C01_non_instance_kept : forall mk ad minus plus dinit f v tp st fs,
   rw mk ad minus plus dinit (S f) v = rebuilt mk ad minus plus dinit f v tp st fs.
 Proof. intros. rewrite (rw_node _ _ _ _ _ f v tp st fs H), H0. reflexivity. Qed.
 Print Assumptions C01_non_instance_kept.
+
+(* ... and for patterns without elisions completeness does not need linearity: if every
+   occurrence of a metavariable stands for exactly the code the assignment gives it (an exact
+   instance), the pattern is accepted, and what the match binds agrees with the assignment *)
+Theorem C01_elision_free_patterns_complete : forall mk s p t d,
+  InstX mk s p t -> compat d s -> exists d', mtch mk p t d = Some d' /\ compat d' s.
+Proof. intros mk s p t d H. exact (mtch_complete_exact mk s p t H d). Qed.
+Print Assumptions C01_elision_free_patterns_complete.
+
+Theorem C01_exact_instances_are_instances : forall mk s p t, InstX mk s p t -> Inst mk s p t.
+Proof. exact InstX_Inst. Qed.
+Print Assumptions C01_exact_instances_are_instances.
 
 (* Statement patterns: a block, case or comm clause is a site when some run of its
    statements is an instance; the leftmost-shortest choice is made (C04_shortest). *)
